@@ -52,6 +52,8 @@ def entry_state(eng, fn, c):
             r = z3.Int("p_" + nm)
             lo = 0 if v.nullable else 1
             st.assume(z3.And(r >= lo, r <= alloc0))
+            if isinstance(v, VList):
+                st.assume(z3.Not(E.IS_KEYS(r)))
             v.ref = r
         env[nm] = v
     st.env = env
